@@ -320,7 +320,7 @@ func VerifC06Step() {
 	vt.lastCol = ref.pending
 	p1, p2 := zzverif.Int("p1"), zzverif.Int("p2")
 	zzverif.Assume(p1 >= 0 && p2 >= 0)
-	kind := zzverif.Choose("kind", 6)
+	kind := zzverif.Choose("kind", 7)
 	opname := ""
 	zzverif.Terminates(3000)
 	switch kind {
@@ -398,6 +398,15 @@ func VerifC06Step() {
 		vt.csi("m", [][]int{{1}, {45}})
 		vt.print(ansi.Print{Grapheme: "q", Width: 1})
 		vt.csi("?l", [][]int{{1049}})
+		zzverif.Assert(vt.cursor.Style.Background == ref.penBg && vt.cursor.Style.Attribute == 0, "leaving-the-alternate-screen-restores-the-pen")
+	case 6: // DECSC, move, then ?1049l while on the primary screen: xterm restores the cursor
+		zzverif.Assume(!ref.pending)
+		vt.esc("7")
+		sr, sc := ref.row, ref.col
+		vt.csi("H", [][]int{{1}, {1}})
+		vt.csi("m", [][]int{{1}, {45}})
+		vt.csi("?l", [][]int{{1049}})
+		ref.row, ref.col = sr, sc
 		zzverif.Assert(vt.cursor.Style.Background == ref.penBg && vt.cursor.Style.Attribute == 0, "leaving-the-alternate-screen-restores-the-pen")
 	case 4: // DECSC, move, DECRC
 		zzverif.Assume(!ref.pending)
